@@ -240,7 +240,7 @@ pub struct St {
     freed: bool,
     arena_ptrs: Vec<usize>,
     pub unmount_thread: Option<usize>,
-    /// a mark CAS succeeded on a node word that was not reachable from the sentinel at that moment
+    /// a compare-exchange succeeded on a node word that was not reachable from the sentinel at that moment
     /// (the node had been popped and its header re-written by a thread that is about to re-insert it)
     aba_mark: Option<String>,
 }
@@ -321,7 +321,7 @@ impl St {
         let fl = self.freelist_raw();
         let marked: Vec<(u32, u32, u32)> = fl.iter().copied().filter(|n| n.1 == 0).collect();
         let sig = if self.aba_mark.is_some() {
-            "stall/aba-mark-of-unlinked-node".to_string()
+            "stall/aba-cas-on-unlinked-node".to_string()
         } else if !marked.is_empty() {
             "stall/marked-node-never-unlinked".to_string()
         } else {
@@ -443,12 +443,13 @@ fn after_event(sh: &Shared, t: usize, e: &Event) {
                     st.force = Some((t, st.mark_preempt as u32));
                 }
                 st.classes.insert("mark-cas");
-                if st.aba_mark.is_none() && !st.freed {
-                    let reach = st.freelist_raw();
-                    if !reach.iter().any(|n| n.0 as usize == off) {
-                        st.aba_mark = Some(format!("thread {t} marked the node at offset {off} (word {:#x}) while it was not linked into the list (reachable: {:?}); doing: {}", e.old, reach, st.last_op[t]));
-                        st.classes.insert("mark-of-unlinked-node");
-                    }
+            }
+            // ABA symptom: a successful compare-exchange on a node word that is not linked into the list
+            if e.wrote && off >= st.data_offset && st.aba_mark.is_none() && !st.freed {
+                let reach = st.freelist_raw();
+                if !reach.iter().any(|n| n.0 as usize == off) {
+                    st.aba_mark = Some(format!("thread {t} compare-exchanged the node word at offset {off} ({:#x} -> {:#x}) while that node was not linked into the list (reachable: {:?}); doing: {}", e.old, e.new, reach, st.last_op[t]));
+                    st.classes.insert("cas-on-unlinked-node");
                 }
             }
             if (e.old >> 32) == 0 {
